@@ -306,12 +306,13 @@ CLAIMED = {
  },
 
  'C13': {
-  'engine'    : 'enum',
-  'category'  : 'exploration',
-  'design_ref': 'DESIGN.md 4 (C13)',
+  'engine'    : 'sched',
+  'category'  : 'model_checking',
+  'design_ref': 'DESIGN.md 4 (C13), 10.6',
   'technique' : 'exhaustive enumeration of all (binding x state) '
-                'configurations and pilot ending orders on the real callback '
-                '(bounded model checking of a sequential handler)',
+                'configurations and pilot ending orders on the real callback; '
+                'stateless model checking of the handler racing with the '
+                'state subscriber thread (controlled threads, delay-bounded)',
   'text'      : 'Complete product of (pilot in {p1,p2,none}) x (7 task '
                 'states) for three real tasks (thorough: 21^3, quick: 21^2 x 5) '
                 'established through the real _update_tasks, x 16 pilot ending '
